@@ -107,7 +107,7 @@ func c12floats(thorough bool) []float64 {
 	fs := []float64{0, math.Copysign(0, -1), 1, -1, 0.5, 2.5, -2.5, 1.0 / 3.0, 0.1 + 0.2, 7.0 / 2.0, 1e21, 1e20, 1e22, 123456789012345678901234.0, 1e-7, 1e-6, 1e-5, 0.000123,
 		1e150 * 1e150, 1e-300, math.MaxFloat64, -math.MaxFloat64, 5e-324, 2.2250738585072014e-308, float64(1 << 53), float64(1<<53) + 2, float64(1 << 55), float64(1 << 60), float64(1 << 62), 9223372036854775808.0, -float64(1 << 55), float64(1<<54) + 4, 9007199254740993, 1e15, 1e16, 1e17, 123456.789, 100, 1e2, 3.0,
 		math.Inf(1), math.Inf(-1)}
-	step := 41
+	step := 7
 	if thorough {
 		step = 1
 	}
@@ -129,7 +129,13 @@ func c12runes(thorough bool) []rune {
 		}
 		return rs
 	}
-	for r := rune(0); r < 0x180; r++ {
+	for r := rune(0); r < 0x2100; r++ {
+		rs = append(rs, r)
+	}
+	for r := rune(0x2100); r <= 0x10FFFF; r += 257 { // a regular sample of the rest of the code space
+		if r >= 0xD800 && r <= 0xDFFF {
+			continue
+		}
 		rs = append(rs, r)
 	}
 	rs = append(rs, 0x2028, 0x2029, 0x3b1, 0x416, 0x5d0, 0x4e2d, 0xfeff, 0xfffd, 0xffff, 0x10000, 0x1f600, 0x10ffff, 0x7ff, 0x800, 0xd7ff, 0xe000)
@@ -460,7 +466,7 @@ func init() {
 	engine.Register(&engine.Check{
 		ID:    "C12",
 		Level: "exploration",
-		Rule: "values: 18 boundary ints, ~240 floats (grid, powers of two over the whole exponent range [thorough: all 2098], values computed by the interpreter's own arithmetic), bools, nil, chars and 1-char strings over ASCII+Latin-1+representatives [thorough: all 1,112,064 Unicode scalars], " +
+		Rule: "values: 18 boundary ints, ~1300 floats (grid, every 7th power of two over the whole exponent range with neighbours [thorough: all 2098], values computed by the interpreter's own arithmetic), bools, nil, chars and 1-char strings over U+0000..U+20FF + every 257th scalar above + representatives [thorough: all 1,112,064 Unicode scalars], " +
 			"all 2-char strings over a 21-char adversarial pool [thorough: 3-char], 22 symbols, 11 JSON-like hashes; each bare, in a list, in an array and nested to depth 3; (read (str v)) must equal v structurally (numbers by value) and for JSON-like values (eval (read (str v))) too. " +
 			"literals: ~700 numeric spellings (decimal with _, 0x 0o 0b, ULL, fraction, exponent, sign, Inf, NaN) against strconv/math/big, and char/string literals for every rune of the set and every escape; each with and without a terminating blank",
 		Assumptions: []string{"equality is structural with numbers compared by value (an integral float may read back as an integer)", "the printed form of +-Inf is only required to read back, not to evaluate"},
